@@ -411,6 +411,7 @@ func init() {
 	streams["upgrade"] = func(dir string, rng *rand.Rand, n int, tier string) {
 		s := NewStream(dir, "upgrade")
 		defer s.Close(dir, "upgrade")
+		monC19UpgradePathDatabase(s)
 		for h := 0; h < n; h++ {
 			accts := rtAccts()
 			a, err := NewChain(dbm.NewMemDB(), tmpHome(), accts, 100000, nil)
